@@ -99,6 +99,11 @@ class Oracle:
     any function of that name is)."""
     def __init__(self, trees):
         self.defs = {}
+        self.classes = {}
+        for t in trees:
+            for n in ast.walk(t):
+                if isinstance(n, ast.ClassDef):
+                    self.classes.setdefault(n.name, n)
         for t in trees:
             for n in ast.walk(t):
                 if isinstance(n, (ast.FunctionDef, ast.AsyncFunctionDef)):
@@ -134,6 +139,17 @@ class Oracle:
         out = set()
         for _ in range(3):
             for n in ast.walk(fn):
+                if isinstance(n, ast.Assign) and len(n.targets) == 1 and \
+                        isinstance(n.targets[0], (ast.Tuple, ast.List)) and \
+                        isinstance(n.value, ast.Call) and self.pure_call(
+                            n.value, (), out) and (
+                                isinstance(n.value.func, ast.Name)
+                                and n.value.func.id in self.defs):
+                    # gamma, length = line(a, b): a factory of the
+                    # repository without side effects
+                    for t in n.targets[0].elts:
+                        if isinstance(t, ast.Name):
+                            out.add(t.id)
                 if isinstance(n, ast.Assign) and len(n.targets) == 1 and \
                         isinstance(n.targets[0], ast.Name):
                     v = n.value
@@ -389,7 +405,7 @@ def _merge_str(values):
     return out
 
 
-_CURRENT = [None]   # the oracle of the comparison in progress
+_CURRENT = [None, None]   # oracle and class of the comparison in progress
 
 
 def _keywords_to_positional(call, oracle):
@@ -405,7 +421,28 @@ def _keywords_to_positional(call, oracle):
             '__' in name[1:] and name not in oracle.defs:
         name = '__' + name[1:].split('__', 1)[1]
     nodes = [nd for nd in oracle.defs.get(name, []) if nd is not None]
-    if not nodes or name == '__init__':
+    if name == '__init__' and isinstance(f, ast.Attribute) and isinstance(
+            f.value, ast.Call) and call_name(f.value) == 'super' and \
+            _CURRENT[1] in oracle.classes:
+        # super().__init__ of a class with one repository base class
+        nodes = []
+        cls = oracle.classes[_CURRENT[1]]
+        seen = set()
+        while cls is not None and cls.name not in seen:
+            seen.add(cls.name)
+            bases = [b.id for b in cls.bases if isinstance(b, ast.Name)
+                     and b.id in oracle.classes]
+            if len(bases) != 1 or len(cls.bases) != 1:
+                break
+            cls = oracle.classes[bases[0]]
+            init = [m_ for m_ in cls.body if isinstance(
+                m_, ast.FunctionDef) and m_.name == '__init__']
+            if init:
+                nodes = init
+                break
+        if not nodes:
+            return call
+    elif not nodes or name == '__init__':
         return call
     sigs = set()
     for nd in nodes:
@@ -413,7 +450,8 @@ def _keywords_to_positional(call, oracle):
         if a.vararg or a.kwarg or a.posonlyargs:
             return call
         params = [x.arg for x in a.args]
-        is_method = isinstance(f, ast.Attribute) or name[:1].isupper()
+        is_method = isinstance(f, ast.Attribute) or name[:1].isupper() \
+            or name == '__init__'
         if params and params[0] in ('self', 'cls') and is_method:
             params = params[1:]
         sigs.add(tuple(params))
@@ -499,6 +537,10 @@ class _ExprCanon(ast.NodeTransformer):
                         n.left, n.right = n.right, n.left
                 return self._neg(n) if k == 1 else n
         if isinstance(n.op, ast.Add):
+            for a_, b_ in ((n.left, n.right), (n.right, n.left)):
+                if isinstance(a_, ast.Constant) and type(
+                        a_.value) is int and a_.value == 0:
+                    return b_   # equal up to the sign of a zero result
             # a + b: operands ordered by their unsigned text, the first one
             # positive: (-a) + b == -(a + (-b)) exactly
             l, r = ast.dump(strip(n.left)), ast.dump(strip(n.right))
@@ -974,6 +1016,7 @@ class Builder:
         self.identity = self._identity_names(fn) if isfn else set()
         self.nodes = 0
         self.nsym = 0
+        self.scope_stack = []
         self.globals = set()
         for n in ast.walk(fn):
             if isinstance(n, (ast.Global, ast.Nonlocal)):
@@ -1242,11 +1285,32 @@ class Builder:
                 isinstance(x, ast.Name) and x.id.startswith('$')) or \
                 _is_at(x):
             return x
+        return self.wrap_leaves(x, ver)
+
+    def wrap_leaves(self, x, ver):
+        """tag every maximal state-reading operand (attribute / subscript
+        chain, call) with the versions of what it reads; arithmetic,
+        comparisons and displays around them carry no tag of their own, so
+        that a snapshot of a compound equals the compound of snapshots"""
+        if _is_at(x) or isinstance(x, (ast.Constant, ast.Lambda)):
+            return x
+        if isinstance(x, (ast.BinOp, ast.UnaryOp, ast.BoolOp, ast.Compare,
+                          ast.IfExp, ast.Tuple, ast.List, ast.Starred,
+                          ast.JoinedStr, ast.FormattedValue, ast.Set,
+                          ast.Dict, ast.Slice)):
+            for f, v in list(ast.iter_fields(x)):
+                if isinstance(v, ast.expr):
+                    setattr(x, f, self.wrap_leaves(v, ver))
+                elif isinstance(v, list):
+                    setattr(x, f, [self.wrap_leaves(e, ver) if isinstance(
+                        e, ast.expr) else e for e in v])
+            return x
         refs = self.mr.refs_of(x)
         if not refs:
             return x
         return ast.Call(func=ast.Name(id='$at', ctx=ast.Load()),
-                        args=[x, ast.Name(id='<%s>' % ver.tag(refs), ctx=ast.Load())],
+                        args=[x, ast.Name(id='<%s>' % ver.tag(refs),
+                                          ctx=ast.Load())],
                         keywords=[])
 
     def expr_mods(self, e, env):
@@ -1392,9 +1456,9 @@ class Builder:
         if isinstance(st, (ast.For, ast.While)):
             return self.loop(st, env, ver, k2)
         if isinstance(st, ast.Break):
-            return ('break', )
+            return ('break', self.carried_state(env, ver))
         if isinstance(st, ast.Continue):
-            return ('continue', )
+            return ('continue', self.carried_state(env, ver))
         if isinstance(st, (ast.FunctionDef, ast.AsyncFunctionDef)):
             lam = self.def_as_lambda(st)
             env = dict(env)
@@ -1415,6 +1479,16 @@ class Builder:
             env[st.name] = s
             return ('eff', 'def %s = %r' % (s.id, t), k2(env, ver))
         return self.opaque(st, env, ver, k2)
+
+    def carried_state(self, env, ver):
+        """values, at this exit of the innermost loop / block body, of the
+        names that live on after it"""
+        if not self.scope_stack:
+            return ''
+        names = self.scope_stack[-1]
+        return '; '.join('%s=%s' % (i, self.now(
+            ast.Name(id=nm, ctx=ast.Load()), env, ver))
+            for i, nm in enumerate(names))
 
     def opaque(self, st, env, ver, k2):
         if isinstance(st, (ast.Global, ast.Nonlocal)):
@@ -1473,10 +1547,14 @@ class Builder:
             for nm in first:
                 inner[nm] = self.sym('L')
             subs = []
-            for label, body in parts:
-                subs.append((label, self.block(
-                    list(body), dict(inner), vin,
-                    lambda e, v: ('end', ))))
+            self.scope_stack.append(list(first))
+            try:
+                for label, body in parts:
+                    subs.append((label, self.block(
+                        list(body), dict(inner), vin,
+                        lambda e, v: ('end', self.carried_state(e, v)))))
+            finally:
+                self.scope_stack.pop()
             after = dict(env)
             for nm in first:
                 after[nm] = inner[nm]
@@ -1748,7 +1826,8 @@ class Builder:
 
         def find(stmts, trail):
             for i, s_ in enumerate(stmts):
-                if s_ is loop or getattr(s_, '_orig', None) is loop:
+                if s_ is loop or s_ is getattr(loop, '_orig', None) or \
+                        getattr(s_, '_orig', None) is loop:
                     path.extend(trail + [(stmts, i)])
                     return True
                 for f in ('body', 'orelse', 'finalbody'):
@@ -1781,6 +1860,43 @@ class Builder:
             return self.block(un, env, ver, k2)
         if st.orelse:
             raise Unsupported('loop-else')
+        if isinstance(st, ast.For) and isinstance(st.iter, ast.Call) and \
+                isinstance(st.iter.func, ast.Name) and \
+                st.iter.func.id == 'enumerate' and len(
+                    st.iter.args) == 1 and not st.iter.keywords and \
+                isinstance(st.target, (ast.Tuple, ast.List)) and len(
+                    st.target.elts) == 2 and isinstance(
+                        st.target.elts[0], ast.Name):
+            seq = esub(st.iter.args[0], env)
+            core_ = seq
+            while _is_at(core_):
+                core_ = core_.args[0]
+            idx = st.target.elts[0].id
+            body_stores = set()
+            for s_ in st.body:
+                body_stores |= _stores(s_)
+            if isinstance(core_, (ast.Name, ast.Attribute, ast.Subscript)) \
+                    and idx not in body_stores and not (
+                        _stores(st.target.elts[1]) & body_stores):
+                # for i, x in enumerate(seq)  ==  for i in range(len(seq)):
+                # x = seq[i]   (seq is a sequence that is indexed anyway)
+                new = ast.For(
+                    target=ast.Name(id=idx, ctx=ast.Store()),
+                    iter=ast.Call(
+                        func=ast.Name(id='range', ctx=ast.Load()),
+                        args=[ast.Call(func=ast.Name(id='len',
+                                                     ctx=ast.Load()),
+                                       args=[st.iter.args[0]],
+                                       keywords=[])], keywords=[]),
+                    body=[ast.Assign(
+                        targets=[st.target.elts[1]],
+                        value=ast.Subscript(
+                            value=st.iter.args[0],
+                            slice=ast.Name(id=idx, ctx=ast.Load()),
+                            ctx=ast.Load()))] + list(st.body),
+                    orelse=[])
+                new._orig = getattr(st, '_orig', st)
+                st = new
         if isinstance(st, ast.For):
             head = 'for in ' + self.now(st.iter, env, ver)
         else:
@@ -1814,7 +1930,13 @@ class Builder:
                            orelse=[ast.Break()])] + list(st.body)
         else:
             body = list(st.body)
-        btree = self.block(body, inner, vin, lambda e, v: ('continue', ))
+        self.scope_stack.append(list(tnames + carried))
+        try:
+            btree = self.block(
+                body, inner, vin,
+                lambda e, v: ('continue', self.carried_state(e, v)))
+        finally:
+            self.scope_stack.pop()
         after = {k_: v_ for k_, v_ in env.items()
                  if k_ not in first or k_ in tnames or k_ in carried}
         for nm in tnames + carried:
@@ -1861,7 +1983,8 @@ class Builder:
         """the condition together with the versions of everything it reads:
         a snapshot taken earlier and the same expression evaluated when the
         snapshot was taken are the same condition"""
-        vers = dict(forced or {})
+        vers = {k_: v_ for k_, v_ in (forced or {}).items()
+                if not k_.startswith('$')}
         ok = True
 
         class U(ast.NodeTransformer):
@@ -1895,6 +2018,10 @@ class Builder:
     def test(self, e, env, ver, kt, kf, done=False, forced=None):
         self.tick()
         if not done:
+            # purity is judged on the source expression, where local
+            # callables are still visible by name
+            forced = dict(forced or {})
+            forced['$pure'] = self.pure(e)
             e = self.settle(esub(e, env), ver)
         if isinstance(e, ast.UnaryOp) and isinstance(e.op, ast.Not):
             return self.test(e.operand, env, ver, kf, kt, True, forced)
@@ -1954,7 +2081,7 @@ class Builder:
                     return kt(env, ver) if fn(l, r) else kf(env, ver)
             except (ValueError, TypeError, SyntaxError):
                 pass
-        if not self.pure(e):
+        if not (forced or {}).get('$pure', False) and not self.pure(e):
             # the call happens here, once
             s = self.sym('b')
             txt = 'bind %s = %s' % (s.id, self.now(e, {}, ver))
@@ -1978,6 +2105,54 @@ _SYM = r'\$[bLfo]\d+'
 def _renumber(text, m):
     import re
     return re.sub(_SYM, lambda mo: m.get(mo.group(0), mo.group(0)), text)
+
+
+def _parse_atom(key):
+    """'Lt(A, B) #tag' -> ('Lt', A, B, tag) (None for other conditions)"""
+    if not key.startswith(('Lt(', 'Eq(')):
+        return None
+    body, _, tag = key.rpartition(' #')
+    if not body.endswith(')'):
+        return None
+    inner = body[3:-1]
+    depth = 0
+    quote = None
+    for i, ch in enumerate(inner):
+        if quote:
+            if ch == quote:
+                quote = None
+            continue
+        if ch in '\'"':
+            quote = ch
+        elif ch in '([{':
+            depth += 1
+        elif ch in ')]}':
+            depth -= 1
+        elif ch == ',' and depth == 0 and inner[i + 1:i + 2] == ' ':
+            return (body[:2], inner[:i], inner[i + 2:], tag)
+    return None
+
+
+def _consistent(key, val, assign):
+    """strict order on values read at the same versions: a < b excludes
+    b < a and a == b (the only arithmetic the comparison of trees uses)"""
+    p = _parse_atom(key)
+    if p is None:
+        return True
+    kind, x, y, tag = p
+    if not val:
+        return True
+    if kind == 'Lt':
+        if assign.get('Lt(%s, %s) #%s' % (y, x, tag)) is True:
+            return False
+        lo, hi = sorted([x, y])
+        if assign.get('Eq(%s, %s) #%s' % (lo, hi, tag)) is True:
+            return False
+    else:
+        if assign.get('Lt(%s, %s) #%s' % (x, y, tag)) is True or \
+                assign.get('Lt(%s, %s) #%s' % (y, x, tag)) is True:
+            return False
+    return True
 
 
 class _Eq:
@@ -2004,6 +2179,8 @@ class _Eq:
             if t[0] == 'ite':
                 key = _renumber(t[1], m)
                 for val in (True, False):
+                    if not _consistent(key, val, assign):
+                        continue   # contradicts what is already assumed
                     as2 = dict(assign)
                     as2[key] = val
                     if not self.eq(a, b, as2, ma, mb):
@@ -2014,7 +2191,9 @@ class _Eq:
         if a[0] in ('ret', 'raise'):
             return _renumber(a[1], ma) == _renumber(b[1], mb)
         if a[0] in ('break', 'continue', 'end'):
-            return True
+            ta_ = a[1] if len(a) > 1 else ''
+            tb_ = b[1] if len(b) > 1 else ''
+            return _renumber(ta_, ma) == _renumber(tb_, mb)
         if a[0] == 'eff':
             ma, mb = dict(ma), dict(mb)
             if not self._match_text(a[1], b[1], ma, mb):
@@ -2061,15 +2240,16 @@ class _Eq:
         return _renumber(ta, ma) == _renumber(tb, mb)
 
 
-def canon(fn, oracle):
+def canon(fn, oracle, cls=None):
     _CURRENT[0] = oracle
+    _CURRENT[1] = cls
     return Builder(fn, oracle, oracle.modref()).build()
 
 
-def equivalent(ref_fn, cur_fn, oracle):
+def equivalent(ref_fn, cur_fn, oracle, cls=None):
     try:
-        ta = canon(ref_fn, oracle)
-        tb = canon(cur_fn, oracle)
+        ta = canon(ref_fn, oracle, cls)
+        tb = canon(cur_fn, oracle, cls)
     except (TooBig, Unsupported, RecursionError):
         return False
     if ta[0] != tb[0]:
@@ -2078,6 +2258,25 @@ def equivalent(ref_fn, cur_fn, oracle):
         return _Eq().eq(ta[1], tb[1], {}, {}, {})
     except (TooBig, Unsupported, RecursionError):
         return False
+
+
+def _without_asserts(fn):
+    class D(ast.NodeTransformer):
+        def visit_Assert(self, n):
+            return ast.Pass()
+    return D().visit(copy.deepcopy(fn))
+
+
+def assert_texts(fn):
+    return sorted(ast.unparse(n.test) for n in ast.walk(fn)
+                  if isinstance(n, ast.Assert))
+
+
+def equivalent_modulo_asserts(ref_fn, cur_fn, oracle, cls=None):
+    """the same function once every assert statement is deleted on both
+    sides (which assertions can fail is then a separate question)"""
+    return equivalent(_without_asserts(ref_fn), _without_asserts(cur_fn),
+                      oracle, cls)
 
 
 def explain(ref_fn, cur_fn, oracle):
